@@ -109,39 +109,65 @@ class Chooser:
         self.counters[key] = self.counters.get(key, 0) + n
 
     # convenience draws ---------------------------------------------------
+    # Hypothesis' generation favours the first element / smallest value of a
+    # bounded choice (zero-extension of short prefixes).  To spread that bias
+    # evenly over the options every bounded choice is rotated by an amount
+    # derived from a per-case drawn 'salt' and the draw's label.  salt = 0
+    # (what the shrinker aims for) is the identity rotation.
+    _salt = None
+
+    def _rot(self, label, n):
+        from hypothesis import strategies as st
+
+        if n <= 1:
+            return 0
+        if self._salt is None:
+            self._salt = self.draw(st.integers(0, 2**30), "salt")
+        if self._salt == 0:
+            return 0
+        h = hashlib.sha1(f"{self._salt}/{label}".encode()).digest()
+        return int.from_bytes(h[:4], "big") % n
+
     def integer(self, lo, hi, label="int"):
         from hypothesis import strategies as st
 
-        return self.draw(st.integers(lo, hi), label)
+        n = hi - lo + 1
+        v = self.draw(st.integers(lo, hi), label)
+        if n > 4096:
+            return v
+        return lo + (v - lo + self._rot(label, n)) % n
 
     def boolean(self, label="bool", p=None):
-        from hypothesis import strategies as st
-
         if p is None:
-            return self.draw(st.booleans(), label)
-        # biased coin through an integer draw (shrinks towards False)
-        return self.draw(st.integers(0, 999), label) >= int(1000 * (1 - p))
+            return bool(self.integer(0, 1, label))
+        return self.integer(0, 999, label) >= int(1000 * (1 - p))
 
     def choice(self, seq, label="choice"):
-        from hypothesis import strategies as st
-
         seq = list(seq)
-        i = self.draw(st.integers(0, len(seq) - 1), label)
-        return seq[i]
+        return seq[self.integer(0, len(seq) - 1, label)]
 
     def perm(self, n, label="perm"):
         from hypothesis import strategies as st
 
+        if n <= 5:
+            import itertools
+
+            allp = list(itertools.permutations(range(n)))
+            return allp[self.integer(0, len(allp) - 1, label)]
         return tuple(self.draw(st.permutations(list(range(n))), label))
 
     def subset(self, seq, label="subset", min_size=0):
         from hypothesis import strategies as st
 
         seq = list(seq)
-        mask = self.draw(
-            st.lists(st.booleans(), min_size=len(seq), max_size=len(seq)),
-            label,
-        )
+        if len(seq) <= 10:
+            bits = self.integer(0, 2 ** len(seq) - 1, label)
+            mask = [(bits >> k) & 1 for k in range(len(seq))]
+        else:
+            mask = self.draw(
+                st.lists(st.booleans(), min_size=len(seq), max_size=len(seq)),
+                label,
+            )
         out = [s for s, m in zip(seq, mask) if m]
         if len(out) < min_size:
             out = seq[:min_size]
@@ -283,3 +309,9 @@ def _is_hyp(e):
 def require(cond, sig, msg=""):
     if not cond:
         raise Discrepancy(sig, msg() if callable(msg) else msg)
+
+
+def tier():
+    """tier of the running check (quick / thorough); laws may use it to bound
+    generated sizes (history lengths)"""
+    return os.environ.get("VF_TIER", "quick")
